@@ -400,8 +400,16 @@ func (g *Gen) randomScalar(fd protoreflect.FieldDescriptor) protoreflect.Value {
 		if r.Chance(1, 20) {
 			n = 200 + r.Intn(400)
 		}
-		alphabet := []rune("abcXYZ 019_-é✓世")
 		var sb strings.Builder
+		if r.Chance(1, 3) {
+			// text that is significant to the JSON and text formats (the binary format does not care)
+			tokens := []string{"\\", "\"", ", ", ":  ", "{", "}", "[", "]", "\\\"", "\\\\", "a", " ", "null", "\n", "\t", ",", ":", "\u2028", "<", "&", "'", "\x01", "/", "é"}
+			for i, k := 0, 1+r.Intn(7); i < k; i++ {
+				sb.WriteString(tokens[r.Intn(len(tokens))])
+			}
+			return protoreflect.ValueOfString(sb.String())
+		}
+		alphabet := []rune("abcXYZ 019_-é✓世")
 		for i := 0; i < n; i++ {
 			sb.WriteRune(alphabet[r.Intn(len(alphabet))])
 		}
